@@ -648,6 +648,18 @@ func postprocessParsed(lookup objLookup) {
 			}
 		}
 	}
+	// Leave local users unchanged, that aren't managed by Netspoc.
+	// Netspoc only generates users with "username NAME nopassword".
+	// If only "username NAME attributes" is found, the user has been
+	// defined by "username NAME password ..." which isn't parsed
+	// and would get lost by "clear configure username NAME".
+	for name, l := range lookup["username"] {
+		if !slices.ContainsFunc(l, func(c *cmd) bool {
+			return strings.HasSuffix(c.parsed, " nopassword")
+		}) {
+			delete(lookup["username"], name)
+		}
+	}
 	// Mark tunnel-group having IP address as name.
 	for name, l := range lookup["tunnel-group"] {
 		if _, err := netip.ParseAddr(name); err == nil {
